@@ -94,7 +94,26 @@ def interference(ctx):
                     if e.get('via') is None and e.get('fn') in release:
                         continue
                     out.append((which, T(ex, t), e))
+    # calls of the environment: every exported function that can change a machine's explored state is
+    # interpreted as an action between steps (Explorer.env_actions), so the state-based rules see its
+    # effect; the rules that look at the stores of a step do not.  They were written for an interface in
+    # which only the release request does that: any other such function leaves them without a verdict.
+    for which in ('cmd', 'evt'):
+        ex = m.machine(which)
+        for f, i, mk, stores in ex.env_actions():
+            if f in release:
+                continue
+            fn = m.prog.functions[f]
+            out.append(('api:' + f, _ApiSite(f, node_pos(fn)[1]), {'loc': stores[0], 'line': node_pos(fn)[1], 'fn': f}))
     return out
+
+
+class _ApiSite:
+    def __init__(self, f, line):
+        self.f, self.line = f, line
+
+    def site(self, e=None):
+        return 'src/cat.c:%s:%s' % (self.line, self.f)
 
 
 def _separation(ctx):
@@ -104,8 +123,15 @@ def _separation(ctx):
     statement; for any other property a breach means that no verdict can be given."""
     bad = interference(ctx)
     ctx.instance('separation', sum(len(ctx.model.machine(w).transitions) for w in ('cmd', 'evt')))
-    if bad and ctx.pid != 'C11':
+    if ctx.pid == 'C11':
+        bad = [b for b in bad if b[0].startswith('api:')]
+    if bad:
         which, t, e = bad[0]
+        if which.startswith('api:'):
+            ctx.extra['_separation_breach'] = ('the exported function %s can store %s (%s): it is interpreted as a call between two steps, but the rules of %s '
+                                               'that look at the stores of a step know only the release request; a clean result is not a verdict'
+                                               % (which[4:], '.'.join(map(str, e['loc'][1:])), t.site(e), ctx.pid))
+            return
         # the property's own rules still run and may report; a clean result, however, is not a verdict (cli)
         ctx.extra['_separation_breach'] = ('the machines are not separable on this tree: the %s machine stores %s of the other machine at %s '
                                            '(reported as a violation by C11); a clean per-machine analysis of %s is not a verdict'
@@ -1003,103 +1029,59 @@ def flatidx(ctx):
             rets.append((st_, rv, evs))
         shapes[role] = rets
         ctx.instance('flatidx', len(outs))
-    # result of the command lookup: an element  group[g].cmd[index - base]
-    import re
-    pat = re.compile(r'^DESC\.cmd_group\[(.+)\]\.cmd$')
-    cmd_groups = set()
-    for st_, rv, evs in shapes['cmd']:
-        if rv == ('null',):
-            continue
-        ok = isinstance(rv, tuple) and rv[0] in ('obj', 'oelem')
-        g = None
-        if ok and rv[0] == 'oelem':
-            mm = pat.match(rv[1])
-            ok = mm is not None
-            if ok:
-                g = mm.group(1)
-                # element index = index - (sum of the sizes of the groups before g): it is index - j with the loop's own j
-                off = rv[2]
-                ok = any(a == 'arg:index' and c == 1 for a, c in off.terms)
-        elif ok:
-            mm = re.match(r'^DESC\.cmd_group\[(.+)\]\.cmd\[(.+)\]$', rv[1])
-            ok = mm is not None and 'arg:index' in mm.group(2)
-            g = mm.group(1) if mm else None
-        ctx.check('flatidx', ok, ctx.site(ms.f_cmd_by_index, m.fn_line(ms.f_cmd_by_index)),
-                  'the command lookup returns %r, not an element of a group selected by the index' % (rv,))
-        cmd_groups.add(g)
-    # the disable predicate reads the flags of that same group and element
-    for st_, rv, evs in shapes['disable']:
-        c = cval(rv)
-        lds = [(e['obj'], e['field']) for e in evs if e['k'] == 'ldi' and e['field'] == 'disable']
-        site = ctx.site(ms.f_disable_by_index, m.fn_line(ms.f_disable_by_index))
-        if c == 1:
-            ok = False
-            for obj, fld in lds:
-                if st_.facts.eq(Lin.atom(obj + '.disable'), 0) is False:
-                    ok = True
-            ctx.check('flatidx', ok, site, 'the disable predicate reports true without a set flag')
-        elif c == 0:
-            # either both flags of the addressed entry were read as clear, or no group contains the index
-            grp = [o for o, f in lds if re.match(r'^DESC\.cmd_group\[[^\]]+\]$', o)]
-            ent = [o for o, f in lds if '.cmd[' in o]
-            if grp or ent:
-                ok = len(grp) >= 1 and len(ent) >= 1 and all(st_.facts.eq(Lin.atom(o + '.disable'), 0) is True for o in grp[-1:] + ent[-1:])
-                ok = ok and ent[-1].startswith(grp[-1] + '.cmd[') and 'arg:index' in ent[-1]
-                ctx.check('flatidx', ok, site, 'the disable predicate reports false without both flags of the indexed entry being clear (%s)' % (lds,))
-    # the two walks advance identically: same continue condition and base update
-    sk = {}
-    for role, fname in (('cmd', ms.f_cmd_by_index), ('disable', ms.f_disable_by_index)):
-        sk[role] = _loop_skeleton(m.prog.functions[fname])
-    ctx.check('flatidx', sk['cmd'] == sk['disable'] and sk['cmd'] is not None, ctx.site(ms.f_disable_by_index, m.fn_line(ms.f_disable_by_index)),
-              'the two flat-index walks differ: %s vs %s' % (sk['cmd'], sk['disable']))
+    # what they compute, on every descriptor shape of a small scope (1-3 groups of 1-3 commands, every
+    # flat index, every combination of the two flags of the addressed entry against both backgrounds):
+    # the bodies are interpreted with the descriptor pinned and loops unrolled, and must return
+    # exactly what the summaries stand for - CMDS[i] is the i-th command of the concatenated groups,
+    # GRPS[i] the group it belongs to; disabled iff one of their two flags is set
+    import itertools
+    raw.it.pin_names = True
+    raw.it.unroll = 12
+    shapes_ = [sz for g in (1, 2, 3) for sz in itertools.product((1, 2, 3), repeat=g)]
+    n_lookup = n_dis = 0
+    site_c = ctx.site(ms.f_cmd_by_index, m.fn_line(ms.f_cmd_by_index))
+    site_d = ctx.site(ms.f_disable_by_index, m.fn_line(ms.f_disable_by_index))
+    bad_c = bad_d = 0
 
-
-def _loop_skeleton(fn):
-    """normalised (condition, continue-guard, base update) of the group walk, locals named by role"""
-    loops = [x for x in walk(fn['_body']) if x.get('kind') == 'ForStmt']
-    if len(loops) != 1:
-        return None
-    loop = loops[0]
-    names = {}
-
-    def norm(n):
-        k = n.get('kind')
-        if k in ('ImplicitCastExpr', 'ParenExpr', 'CStyleCastExpr'):
-            return norm(n['inner'][0])
-        if k == 'DeclRefExpr':
-            d = n['referencedDecl']
-            if d['kind'] == 'ParmVarDecl':
-                return 'P%d' % [p['id'] for p in fn['_params']].index(d['id'])
-            if d['kind'] == 'VarDecl':
-                names.setdefault(d['id'], 'v%d' % len(names))
-                return names[d['id']]
-            return d.get('name')
-        if k == 'MemberExpr':
-            return '%s.%s' % (norm(n['inner'][0]), n['name'])
-        if k in ('BinaryOperator', 'CompoundAssignOperator'):
-            return '(%s %s %s)' % (norm(n['inner'][0]), n['opcode'], norm(n['inner'][1]))
-        if k == 'UnaryOperator':
-            return '(%s%s)' % (n['opcode'], norm(n['inner'][0]))
-        if k == 'ArraySubscriptExpr':
-            return '%s[%s]' % (norm(n['inner'][0]), norm(n['inner'][1]))
-        if k == 'IntegerLiteral':
-            return n['value']
-        return k
-    init, _, cond, inc, body = loop['inner']
-    first_if = None
-    pre = []
-    for st in body.get('inner', ()):
-        if st.get('kind') == 'IfStmt' and first_if is None:
-            first_if = st
-            break
-        pre.append(norm(st))
-    if first_if is None:
-        return None
-    guard = norm(first_if['inner'][0])
-    then = first_if['inner'][1]
-    upd = [norm(x) for x in then.get('inner', ()) if x.get('kind') != 'ContinueStmt'] if then.get('kind') == 'CompoundStmt' else [norm(then)]
-    has_continue = any(x.get('kind') == 'ContinueStmt' for x in walk(then))
-    return (norm(init) if init else None, norm(cond) if cond else None, norm(inc) if inc else None, tuple(pre), guard, tuple(upd), has_continue)
+    def pinned(sizes):
+        s = State()
+        s.pnull['DESC'] = False
+        s.mem[('S', 'desc')] = ('obj', 'DESC')
+        s.mem[('S', 'commands_num')] = Lin.c(sum(sizes))
+        s.facts.iv['DESC.cmd_group_num'] = (len(sizes), len(sizes))
+        for g, n_ in enumerate(sizes):
+            s.facts.iv['DESC.cmd_group[%d].cmd_num' % g] = (n_, n_)
+        return s
+    for sizes in shapes_:
+        flat = [(g, k) for g, n_ in enumerate(sizes) for k in range(n_)]
+        for i, (g, k) in enumerate(flat):
+            outs = raw.it.run_function(ms.f_cmd_by_index, pinned(sizes), [SELF, Lin.c(i)])
+            got = sorted(set(repr(rv) for st_, rv in outs))
+            want = repr(('obj', 'DESC.cmd_group[%d].cmd[%d]' % (g, k)))
+            n_lookup += 1
+            if got != [want] and bad_c < 4:
+                bad_c += 1
+                ctx.check('flatidx', False, site_c, 'with groups of sizes %s the command lookup maps flat index %d to %s; the %d-th command overall is %s'
+                          % (list(sizes), i, got, i, want))
+            if len(sizes) > 2 and max(sizes) > 2:
+                continue        # the flag combinations are tried on the smaller shapes
+            for gf, ef, bg in itertools.product((0, 1), (0, 1), (0, 1)):
+                s0 = pinned(sizes)
+                for g2, n2 in enumerate(sizes):
+                    s0.facts.iv['DESC.cmd_group[%d].disable' % g2] = (gf, gf) if g2 == g else (bg, bg)
+                    for k2 in range(n2):
+                        s0.facts.iv['DESC.cmd_group[%d].cmd[%d].disable' % (g2, k2)] = (ef, ef) if (g2, k2) == (g, k) else (bg, bg)
+                outs = raw.it.run_function(ms.f_disable_by_index, s0, [SELF, Lin.c(i)])
+                got = sorted(set(cval(rv) for st_, rv in outs), key=repr)
+                n_dis += 1
+                if got != [1 if (gf or ef) else 0] and bad_d < 4:
+                    bad_d += 1
+                    ctx.check('flatidx', False, site_d, 'with groups of sizes %s, flat index %d (group %d, entry %d): group flag %d, entry flag %d, every other flag %d: '
+                              'the disable predicate returns %s' % (list(sizes), i, g, k, gf, ef, bg, got))
+    ctx.instance('flatidx', n_lookup + n_dis)
+    ctx.extra['flatidx_small_scope'] = {'shapes': len(shapes_), 'lookups': n_lookup, 'disable_cases': n_dis}
+    if n_lookup == 0 or n_dis == 0:
+        raise AnalysisBroken('flat-index helpers: nothing evaluated')
 
 
 RULES['C09'] = c09
